@@ -4,21 +4,24 @@
 (* subscription are compared with the configuration.                                                 *)
 EXTENDS PdoCfg, Json, IOUtils
 DevOf(d) == DevInit(d.valid, d.rtr, d.cob, d.tt, d.count, d.ents)
-CInit0(t) == [dev |-> DevOf(t.dev0), cfg |-> <<>>, first |-> TRUE, nw |-> 0]
+CInit0(t) == [dev |-> DevOf(t.dev0), cfg |-> <<>>, first |-> TRUE, nw |-> 0, vdone |-> FALSE]
 CShow0(st) == st
 Bad(st, why) == [ok |-> FALSE, why |-> why, st |-> st]
 Good(st) == [ok |-> TRUE, why |-> "", st |-> st]
 CfgOf(e) == [cob |-> e.cob, enabled |-> e.enabled, rtr |-> e.rtr, tt |-> e.tt, inhibit |-> e.inhibit,
              evt |-> e.evt, sync |-> e.sync, map |-> e.map]
 GStep(st, e, t) ==
-    CASE e.e = "cfg" -> Good([st EXCEPT !.cfg = CfgOf(e), !.first = TRUE, !.nw = 0])
+    CASE e.e = "cfg" -> Good([st EXCEPT !.cfg = CfgOf(e), !.first = TRUE, !.nw = 0, !.vdone = FALSE])
+      [] e.e = "nomap" -> Bad(st, "the node has no map for a PDO number (1..512) its dictionary describes")
       [] e.e = "w" ->
            LET r == DevWrite(st.dev, e.k, e.sub, e.val) IN
            IF e.ok # r.ok THEN Bad(st, "HARNESS: device simulator disagrees with the strict device of the specification")
            ELSE IF st.first /\ ~(e.k = "com" /\ e.sub = 1 /\ Len(e.val) = 4 /\ ~ValidOf(e.val))
              THEN Bad(st, "the PDO is not invalidated (COB-ID with bit 31) by the first write")
            ELSE IF ~r.ok THEN Bad(st, "a write of the save procedure is refused by a strict device (out of order)")
-           ELSE Good([st EXCEPT !.dev = r.dev, !.first = FALSE, !.nw = st.nw + 1])
+           ELSE IF st.vdone THEN Bad(st, "the PDO is not validated last: a write followed the COB-ID write that validates it")
+           ELSE Good([st EXCEPT !.dev = r.dev, !.first = FALSE, !.nw = st.nw + 1,
+                                !.vdone = (e.k = "com" /\ e.sub = 1 /\ Len(e.val) = 4 /\ ValidOf(e.val))])
       [] e.e = "saved" ->
            IF e.raised THEN Bad(st, "save raised")
            ELSE IF ~Holds(st.dev, st.cfg) THEN Bad(st, "after save the device does not hold the CiA 301 encoding of the configuration")
